@@ -4,6 +4,11 @@ package verifbench
 // boundary pools plus random values, for any message descriptor.
 
 import (
+	"google.golang.org/protobuf/types/known/wrapperspb"
+	"google.golang.org/protobuf/types/known/timestamppb"
+	"google.golang.org/protobuf/types/known/durationpb"
+	"google.golang.org/genproto/googleapis/rpc/errdetails"
+	"time"
 	"math"
 	"strings"
 
@@ -159,7 +164,27 @@ func fillWKT(t *rapid.T, m protoreflect.Message, label string, depth int, o msgO
 		}
 		return true
 	case "google.protobuf.Any":
-		return true // left empty: not generated
+		// a message of a type every resolver involved can find (well-known types and google.rpc are
+		// linked in), under a type URL with one of several prefixes: resolution goes by what follows
+		// the last slash
+		var inner proto.Message
+		switch rapid.IntRange(0, 4).Draw(t, label+"_any_kind") {
+		case 0:
+			return true // left empty
+		case 1:
+			inner = durationpb.New(time.Duration(rapid.Int64Range(-1e15, 1e15).Draw(t, label+"_any_dur")))
+		case 2:
+			inner = wrapperspb.String(genString(t, label+"_any_str", 12))
+		case 3:
+			inner = &errdetails.ErrorInfo{Reason: genString(t, label+"_any_reason", 8), Domain: "bench.test"}
+		default:
+			inner = timestamppb.New(time.Unix(rapid.Int64Range(0, 4e9).Draw(t, label+"_any_ts"), 0))
+		}
+		val, _ := proto.MarshalOptions{Deterministic: true}.Marshal(inner)
+		prefix := rapid.SampledFrom([]string{"type.googleapis.com/", "type.googleapis.com/", "types.example.com/acme/", "example.com/", "/"}).Draw(t, label+"_any_prefix")
+		m.Set(fs.ByName("type_url"), protoreflect.ValueOfString(prefix+string(inner.ProtoReflect().Descriptor().FullName())))
+		m.Set(fs.ByName("value"), protoreflect.ValueOfBytes(val))
+		return true
 	case "google.api.HttpBody":
 		m.Set(fs.ByName("content_type"), protoreflect.ValueOfString(rapid.SampledFrom([]string{
 			"text/plain", "application/octet-stream", "image/png", "text/html; charset=utf-8", "application/json", "application/x-custom+thing"}).Draw(t, label+"_ct")))
